@@ -189,6 +189,19 @@ fn set_mss_direction() {
     if m < old.mss { assert!(c.cwnd >= old.cwnd); } else { assert!(c.cwnd <= old.cwnd); }
 }
 
+//@ harness id=cubic.k.enter_recovery_factor.int kind=bounded props=C15 tier=quick timeout=900 bound="cwnd an integer number of segments in [0, 65535]; every other field any f64" text="on_enter_recovery: cwnd' == cwnd * 0.7 bit for bit and ssthresh' == max(cwnd', 2), for every integral window up to 65535 segments, whatever w_max / w_max_last (fast convergence) are"
+#[kani::proof]
+#[kani::stub(calc_k, stub_calc_k)]
+fn enter_recovery_factor_int() {
+    let mut c = any_cubic(true);
+    let n: u16 = kani::any();
+    c.cwnd = n as f64;
+    let old = c;
+    c.on_enter_recovery(old.last_congestion_event);
+    assert!(c.cwnd.to_bits() == (old.cwnd * 0.7).to_bits());
+    assert!(c.ssthresh.to_bits() == c.cwnd.max(2.).to_bits());
+}
+
 //@ harness id=cubic.k.enter_recovery_factor kind=complete props=C15 tier=thorough timeout=2400 text="on_enter_recovery: the window becomes exactly 0.7 of the PREVIOUS window (cwnd' == cwnd * 0.7, bit for bit) and ssthresh' == max(cwnd', 2), whatever w_max / w_max_last (fast convergence) are"
 #[kani::proof]
 #[kani::stub(calc_k, stub_calc_k)]
@@ -198,6 +211,17 @@ fn enter_recovery_factor() {
     c.on_enter_recovery(old.last_congestion_event);
     assert!(c.cwnd.to_bits() == (old.cwnd * 0.7).to_bits());
     assert!(c.ssthresh.to_bits() == c.cwnd.max(2.).to_bits());
+}
+
+//@ harness id=cubic.k.rto_factor.int kind=bounded props=C15 tier=quick timeout=900 bound="cwnd an integer number of segments in [0, 65535]" text="on_retransmission_timeout: ssthresh' == max(cwnd * 0.7, 2) bit for bit, for every integral window up to 65535 segments"
+#[kani::proof]
+fn rto_factor_int() {
+    let mut c = any_cubic(true);
+    let n: u16 = kani::any();
+    c.cwnd = n as f64;
+    let old = c;
+    c.on_retransmission_timeout(old.last_congestion_event);
+    assert!(c.ssthresh.to_bits() == (old.cwnd * 0.7).max(2.).to_bits());
 }
 
 //@ harness id=cubic.k.rto_factor.attempt kind=attempt props=C15 tier=thorough timeout=1200 text="on_retransmission_timeout: ssthresh' == max(cwnd * 0.7, 2) bit for bit"
